@@ -7,8 +7,8 @@ with tempfile.TemporaryDirectory() as d:
     x = os.path.join(d, "r.xml")
     cmd = ["/venv/bin/python", "-m", "pytest", "-q", "-p", "no:cacheprovider", "--timeout=900",
            "--continue-on-collection-errors", f"--junitxml={x}", *sys.argv[1:]]
-    env = dict(os.environ); env.pop("XDSL_VERIF_HOOKS", None)
-    p = subprocess.run(cmd, cwd="/repo", capture_output=True, text=True, env=env)
+    env = dict(os.environ); env.pop("XDSL_VERIF_HOOKS", None); env["PYTHONPATH"] = os.environ.get("XDSL_REPO", "/repo")
+    p = subprocess.run(cmd, cwd=os.environ.get("XDSL_REPO", "/repo"), capture_output=True, text=True, env=env)
     print(p.stdout[-600:])
     passed = set()
     for tc in ET.parse(x).getroot().iter("testcase"):
